@@ -1,6 +1,7 @@
 package lib
 
 import (
+	"bufio"
 	"bytes"
 	"errors"
 	"fmt"
@@ -8,8 +9,11 @@ import (
 	"net/http"
 	"os"
 	"os/exec"
+	"os/signal"
 	"regexp"
+	"strconv"
 	"strings"
+	"syscall"
 
 	"github.com/tdewolff/minify/v2"
 
@@ -120,10 +124,51 @@ func HelperMain() {
 		fmt.Fprintln(os.Stderr, "helper: asked to fail")
 		os.Exit(4)
 	}
+	if len(args) > 0 && args[len(args)-1] == "-stream" {
+		helperStream(id)
+	}
 	b, _ := io.ReadAll(in)
 	fmt.Fprintf(out, "%s:%s", id, b)
 	if f, ok := out.(*os.File); ok && f != os.Stdout {
 		f.Close()
+	}
+	os.Exit(0)
+}
+
+// helperStream: the input starts with a line holding the number of bytes that follow; they
+// are copied to stdout in pieces as they arrive. A failing write or an input that ends early
+// is reported on stderr and by the exit status, as a well-behaved filter does.
+func helperStream(id string) {
+	signal.Ignore(syscall.SIGPIPE)
+	in := bufio.NewReader(os.Stdin)
+	line, err := in.ReadString('\n')
+	want, perr := strconv.Atoi(strings.TrimSpace(line))
+	if err != nil || perr != nil {
+		fmt.Fprintln(os.Stderr, "helper: no length line")
+		os.Exit(6)
+	}
+	if _, err := fmt.Fprintf(os.Stdout, "%s:", id); err != nil {
+		fmt.Fprintln(os.Stderr, "helper: write:", err)
+		os.Exit(5)
+	}
+	buf := make([]byte, 4096)
+	got := 0
+	for {
+		n, rerr := in.Read(buf)
+		if n > 0 {
+			got += n
+			if _, werr := os.Stdout.Write(buf[:n]); werr != nil {
+				fmt.Fprintln(os.Stderr, "helper: write:", werr)
+				os.Exit(5)
+			}
+		}
+		if rerr != nil {
+			break
+		}
+	}
+	if got < want {
+		fmt.Fprintf(os.Stderr, "helper: input ended after %d of %d bytes\n", got, want)
+		os.Exit(6)
 	}
 	os.Exit(0)
 }
